@@ -129,7 +129,8 @@ func c18UnpackCodec(aware bool, cidLen int) *v.Codec {
 
 	return &v.Codec{
 		Name: "unpack", ID: 9, Ctx: []int{a, cidLen},
-		Corpus: [][]byte{
+		// all three are concatenations of well-framed records
+		CorpusValid: [][]byte{
 			zeroLast,
 			append(append([]byte{}, zeroLast...), oneByte...),
 			append(append([]byte{}, oneByte...), zeroLast...),
@@ -249,6 +250,12 @@ func c18RecordCodec(cidLen int) *v.Codec {
 			{23, 254, 253, 0, 1, 0, 0, 0, 0, 0, 5, 0, 0, 1, 2, 3},
 			// ContentLen 9 but a two-byte alert follows
 			{21, 254, 253, 0, 0, 0, 0, 0, 0, 0, 1, 0, 9, 2, 40},
+			// handshake content: Finished carried as a fragment with offset 5
+			{22, 254, 253, 0, 0, 0, 0, 0, 0, 0, 1, 0, 13, 20, 0, 0, 1, 0, 0, 0, 0, 5, 0, 0, 1, 170},
+		},
+		CorpusValid: [][]byte{
+			// application data, three bytes, ContentLen 3
+			{23, 254, 253, 0, 1, 0, 0, 0, 0, 0, 5, 0, 3, 1, 2, 3},
 		},
 		Decode: func(in []byte) (*v.Decoded, error) {
 			rl := RecordLayer{Header: Header{ConnectionID: make([]byte, cidLen)}}
